@@ -230,10 +230,16 @@ impl RoutingThread {
                     .await;
             }
             Message::KeyListUpdate(key_list) => {
-                self.network
+                if let Err(e) = self
+                    .network
                     .handle_received_key_list(peer_index, key_list)
                     .await
-                    .unwrap();
+                {
+                    warn!(
+                        "key list from peer : {:?} not accepted : {:?}",
+                        peer_index, e
+                    );
+                }
             }
             Message::Block(_) => {
                 // blocks travel through the block-fetch path only; a peer that pushes one is ignored
